@@ -137,6 +137,24 @@ def unary(ctx, P, a, k, rng, full=True):
             for form, val in (('list', list(vals)), ('tuple', tuple(vals)), ('poly', mk(P, vals, k))):
                 Z = mk(P, a, k); r = call(Z.__setitem__, sl, val)
                 same(ctx, 'setitem', Z if not is_exc(r) else r, w, k, idx=str(sl), v=vals, form=form, **det)
+    if n and k:
+        from crysp.bits import Bits
+        for wv in (k, k + 5, 2 * k):
+            v = rng.getrandbits(wv) | (1 << (wv - 1)); i = rng.randrange(-n, n)
+            Z = mk(P, a, k); r = call(Z.__setitem__, i, Bits(v, wv))
+            w = list(a); w[i] = red(v, k)
+            same(ctx, 'setitem', Z if not is_exc(r) else r, w, k, idx=i, v='Bits(%d,%d)' % (v, wv), **det)
+        vals = [rng.getrandbits(k + 3) for _ in range(n)]
+        Z = mk(P, a, k); r = call(Z.__setitem__, slice(None), [Bits(x, k + 3) for x in vals])
+        same(ctx, 'setitem', Z if not is_exc(r) else r, [red(x, k) for x in vals], k, idx='[:]', v='list of wider Bits', **det)
+    if n:
+        for nm, it in (('reversed(range)', lambda: reversed(range(n))), ('generator', lambda: (i for i in range(0, n, 2))), ('range', lambda: range(n - 1, -1, -1)), ('map', lambda: map(int, [0, n - 1]))):
+            want = [a[i] for i in it()]
+            same(ctx, 'getitem', call(lambda: A[it()]), want, k, idx=nm, **det)
+    for st, sp, step in ((0, n + 3, 1), (0, n + 3, 2), (1, n + 4, 2), (n, n + 2, 1), (0, 2 * n + 1, 3), (1, n + 1, 1)):
+        if st <= n:
+            want = [(a[i] if i < n else 0) for i in range(st, sp, step)]      # positions past the end read as zero (SubPoly.e)
+            same(ctx, 'getitem', call(lambda: A[st:sp:step]), want, k, idx='%d:%d:%d (overhanging)' % (st, sp, step), **det)
     if n:
         lists = [[0], [n - 1], list(range(n)), list(range(n - 1, -1, -1)), [0, 0, n - 1], [rng.randrange(n) for _ in range(rng.randrange(1, n + 3))]]
         for L in [[-1], [-1, 0], [-n, n - 1, -1], [rng.randrange(-n, n) for _ in range(n + 1)]]:
